@@ -5,7 +5,7 @@ from mc import core, det, domains, sse
 PROPERTY = 'C01'
 ENGINE = 'E1 bounded-exhaustive enumeration of (scheme, configuration point, list-length profile, keyword order, content relation)'
 LEVEL = 'model_checking'
-DIRECTED_ADDITIONS = 'many-keyword profiles, KiB keywords, mixed-length identifiers (PiBas), aliased posting lists, empty posting lists (refused or correct), bytes-like keyword objects, constructor styles, rebuild under the same key, per-scheme sweep'      # members added during the seeded-change campaign (DESIGN 7); counted under their own vacuity counters
+DIRECTED_ADDITIONS = 'setups refused part-way by the same scheme object before every fourth case, one list of 1100 / 3000 postings per scheme (Pi2Lev: the longest its configuration admits), many-keyword profiles, KiB keywords, mixed-length identifiers (PiBas), aliased posting lists, empty posting lists (refused or correct), bytes-like keyword objects, constructor styles, rebuild under the same key, per-scheme sweep'      # members added during the seeded-change campaign (DESIGN 7); counted under their own vacuity counters
 
 MAXLEN = {'quick': 4200, 'thorough': 9000}
 CHUNK = 60
@@ -88,10 +88,42 @@ def units(tier, seed):
                 us.append(('%s/%s/%d' % (name, label, k), {'scheme': name, 'label': label, 'cfg': cfg, 'lo': k, 'hi': k + CHUNK}))
         us.append(('sweep/%s' % name, {'sweep': name}))
         us.append(('ctor/%s' % name, {'ctor': name}))
+        us.append(('long/%s' % name, {'long': name}))
     return us
 
 
-def run_case(r, seed, name, label, cfg, profile, kwlen, relation, cache=None):
+def long_cases(name):
+    """one posting list far longer than anything the dense enumeration reaches (past the interpreter's recursion limit of 1000)"""
+    if name == 'CGKO06.SSE1':
+        return [('s2048', sse.base_cfg(name, param_s=2048), [1100])]
+    if name == 'CJJ14.Pi2Lev':
+        cfg = sse.base_cfg(name)
+        top = cfg['param_B'] * cfg['param_B_prime'] * cfg['param_b_prime'] - 1          # the longest list the configuration admits
+        return [('base', cfg, [top, 2])]
+    return [('base', sse.base_cfg(name), [1100]), ('base', sse.base_cfg(name), [3000, 2])]
+
+
+def refused_setups(name, cfg, cfg2, g):
+    """databases whose setup is refused PART-WAY (after some keywords have been processed): a text identifier at the end of the
+    last list and, for Pi2Lev, a last list longer than the configuration admits - each behind keywords of every size class"""
+    ids = cfg.get('param_identifier_size', 8)
+    if name == 'CJJ14.Pi2Lev':
+        sizes = [cfg['param_b'] + 1, cfg['param_B'] * cfg['param_b_prime'] + 1, 1]
+        too_long = cfg['param_B'] * cfg['param_B_prime'] * cfg['param_b_prime'] + 1
+    else:
+        sizes, too_long = [3, 5, 1], None
+    base = {b'Zr%d' % i: domains.make_ids(n, ids, g, awkward=False) for i, n in enumerate(sizes)}
+    first = dict(base)
+    first[b'Zrz'] = domains.make_ids(2, ids, g, awkward=False) + ['text-id']
+    out = [first]
+    if too_long and too_long <= 5000:
+        second = dict(base)
+        second[b'Zrz'] = domains.make_ids(too_long, ids, g, awkward=False)
+        out.append(second)
+    return [d for d in out if sse.finalize_cfg(name, cfg, {k: [x for x in v if isinstance(x, bytes)] for k, v in d.items()}) == cfg2]
+
+
+def run_case(r, seed, name, label, cfg, profile, kwlen, relation, cache=None, refused_first=False):
     case = {'scheme': name, 'label': label, 'cfg': cfg, 'profile': profile, 'kwlen': kwlen, 'relation': relation}
     core.note_case(case)
     db, cfg2, g = sse.build_db(seed, name, label, cfg, profile, kwlen, relation)
@@ -116,6 +148,14 @@ def run_case(r, seed, name, label, cfg, profile, kwlen, relation, cache=None):
     try:
         scheme = sse.shared_scheme(cache, L, cfg2) if cache is not None else L.SSEScheme(cfg2)
         key = scheme.KeyGen()
+        if refused_first:
+            # the same scheme object is first given databases it refuses part-way; what it builds afterwards must be as good as ever
+            for bad in refused_setups(name, cfg, cfg2, g):
+                try:
+                    scheme.EDBSetup(key, bad)
+                    r.count('refused-setup-first/accepted-after-all')
+                except Exception:
+                    r.count('refused-setup-first')
         edb = scheme.EDBSetup(key, db)
         r['transitions'] += 2
     except Exception as e:
@@ -261,11 +301,20 @@ def run_unit(p, tier, seed):
         run_sweep(r, seed, p['sweep'], tier)
         det.restore()
         return r
+    if 'long' in p:
+        for label, cfg, prof in long_cases(p['long']):
+            if sse.valid_profile(p['long'], cfg, prof):
+                run_case(r, seed, p['long'], label, cfg, prof, 6, 'disjoint')
+                r.count('long-list-cases')
+            else:
+                r.count('long-list-invalid-for-configuration')
+        det.restore()
+        return r
     name, label, cfg = p['scheme'], p['label'], p['cfg']
     cache = {}
     for i, (profile, kwlen, relation) in enumerate(case_list(name, label, cfg, tier)[p['lo']:p['hi']]):
         n0 = len(r['violations'])
-        run_case(r, seed, name, label, cfg, profile, kwlen, relation, cache=cache)
+        run_case(r, seed, name, label, cfg, profile, kwlen, relation, cache=cache, refused_first=(i % 4 == 3))
         for v in r['violations'][n0:]:
             v['case']['unit'] = core.enc({'tier': tier, 'lo': p['lo'], 'index': i})
     det.restore()
